@@ -47,13 +47,18 @@ using L = nth<LHS_INDEX>::type;
 template<class T>
 std::vector<T> vals(std::uint64_t salt)
 {
+    // thorough: the bare exponent-0 nesting (NEST 0) over all 8-bit values and the tier-1 boundary sets, the deeper
+    // nestings over the quick tier's sets plus more random values (keeps the tier near 10 M events)
     if constexpr (sizeof(T) == 1) {
-        if (thorough()) {
+        if (thorough() && NEST == 0) {
             return all_values<T>();
         }
         return boundary<T>(2);
     }
-    return operands<T>(thorough() ? 60 : 4, salt);
+    if (thorough()) {
+        return NEST == 0 ? operands<T>(10, salt, 1) : operands<T>(8, salt, 0);
+    }
+    return operands<T>(4, salt);
 }
 
 template<class Op, class A, class B>
@@ -235,8 +240,8 @@ void kernels(sink& out)
 {
     using S32 = cnl::scaled_integer<std::int32_t, cnl::power<-16>>;
     using S64 = cnl::scaled_integer<std::int64_t, cnl::power<-16>>;
-    auto as = operands<std::int32_t>(thorough() ? 2000 : 60, 77, thorough() ? 2 : 1);
-    auto bs = operands<std::int32_t>(thorough() ? 2000 : 60, 78, thorough() ? 2 : 1);
+    auto as = operands<std::int32_t>(thorough() ? 400 : 60, 77, 1);
+    auto bs = operands<std::int32_t>(thorough() ? 400 : 60, 78, 1);
     int km = add_inst(out, ev("Inst").str("kind", "NtKernel").str("op", "multiply_widen").num("exp", -32).raw("lt", ty<std::int32_t>()).raw("rt", ty<std::int32_t>()));
     int ks = add_inst(out, ev("Inst").str("kind", "NtKernel").str("op", "square").num("exp", -32).raw("lt", ty<std::int32_t>()).raw("rt", ty<std::int32_t>()));
     int ka = add_inst(out, ev("Inst").str("kind", "NtKernel").str("op", "average").num("exp", -17).raw("lt", ty<std::int32_t>()).raw("rt", ty<std::int32_t>()));
